@@ -259,7 +259,7 @@ let fam_ratec () =
        | 0 -> let base = q_of_int (1000000 * r + 1000 * tt.(c) + 7 * pp.(c) + 13 * (1 + c mod 3)) in
               mg (List.fold_left (fun acc (i, x) -> qadd acc (qmul (q_of_int (i + 1)) (qof x))) base
                     (List.mapi (fun i x -> (i, x)) params))
-       | 1 -> mg (qmul (q_of_frac 1 2) (qof (List.hd params)))
+       | 1 -> mg (qmul (if r mod 3 = 2 then q0 else q_of_frac 1 2) (qof (List.hd params)))
        | _ -> mg (q_of_int (3 + r))) in
     let fixed (c : int) : Obj.t = mg (let rec pw n = if n = 0 then q1 else qmul (q_of_int tt.(c)) (pw (n - 1)) in pw nt) in
     { rp_calc = calc; rp_size = nat_of_int s; rp_fixed = fixed }) specs in
